@@ -142,6 +142,12 @@ def run(ctx: Ctx, replay: str | None) -> None:
         ctx.sample({"prog": s["prog"], "tensors": s["tensors"], "inputs": s["inputs"], "k": s["k"],
                     "w": s["w"], "expected": s["expected"]})
 
+    # implementation-shaped layer bound to the code (DRIFT only): stage-by-stage dictionaries
+    from ..stage_trace import validate_impl_layer
+    sample = list(scns)
+    random.Random(ctx.seed).shuffle(sample)
+    validate_impl_layer(ctx, sample[: (200 if quick else 2000)], ctx.seed)
+
     # C->S: larger random programs validated by TLC
     from ..trace_backward import random_episodes, validate
     n = 150 if quick else 1500
